@@ -415,6 +415,9 @@ func descD(v ssa.Value, depth int) string {
 	case *ssa.Parameter:
 		if n := namedOf(x.Type()); n != nil && !isBigIntPtr(x.Type()) {
 			if _, ok := n.Underlying().(*types.Struct); ok {
+				if b, ok := paramBind[x]; ok && bindStructParams && strings.HasPrefix(b, "call:") {
+					return b // the object a call in the caller produced keeps that identity in a helper
+				}
 				return "<" + typeShort(n) + ">"
 			}
 		}
@@ -897,6 +900,10 @@ var paramBindV = map[*ssa.Parameter]ssa.Value{}
 // paramBindA: integer arguments as affine expressions over system parameters and descriptors.
 var paramBindA = map[*ssa.Parameter]Affine{}
 
+// bindStructParams: while a helper's return term is inlined into its caller, an object that a call in the caller
+// produced keeps that identity inside the helper (instead of the type-rooted name).
+var bindStructParams bool
+
 // bindCall runs f with g's parameters bound to the arguments of the call c (descriptors taken in the
 // current context, so bindings compose along a call chain).
 func bindCall(c ssa.CallInstruction, g *ssa.Function, f func()) {
@@ -1040,6 +1047,48 @@ func originD(v ssa.Value, depth int) ssa.Value {
 		}
 	}
 	return v
+}
+
+// descNN describes a value that is known (or required elsewhere) to be non-nil: for the result of a
+// module-internal helper it is the descriptor all non-nil returns of the helper agree on, taken with the
+// helper's parameters bound to the call's arguments (`x := p.lookup(); if x == nil {...}; use(x)`).
+func descNN(v ssa.Value) string { return descNND(v, 0) }
+
+func descNND(v ssa.Value, depth int) string {
+	d := desc(v)
+	c, ok := v.(*ssa.Call)
+	if !ok || depth > 3 {
+		return d
+	}
+	g := staticCallee(c)
+	if g == nil || !inModuleFn(g) || g.Blocks == nil || g.Signature.Results().Len() != 1 || bigMethod(c) != "" || isBigWrapperFn(g) {
+		return d
+	}
+	if g.Object() != nil && g.Object().Exported() {
+		return d // exported API keeps its own name in the rules
+	}
+	res, n := "", 0
+	bindCall(c, g, func() {
+		dead := deadBlocks(g)
+		for _, r := range returnsOf(g) {
+			if dead[r.Block()] || isNilConst(r.Results[0]) {
+				continue
+			}
+			o := descNND(r.Results[0], depth+1)
+			if n == 0 || o == res {
+				res = o
+				if n == 0 {
+					n = 1
+				}
+			} else {
+				n = 2
+			}
+		}
+	})
+	if n == 1 && res != "" {
+		return res
+	}
+	return d
 }
 
 // deepVisit calls visit for fn and, with their parameters bound to the call's arguments, for the
